@@ -1,0 +1,251 @@
+// Copyright 2020-2025 Buf Technologies, Inc.
+//
+// Licensed under the Apache License, Version 2.0 (the "License");
+// you may not use this file except in compliance with the License.
+// You may obtain a copy of the License at
+//
+//      http://www.apache.org/licenses/LICENSE-2.0
+//
+// Unless required by applicable law or agreed to in writing, software
+// distributed under the License is distributed on an "AS IS" BASIS,
+// WITHOUT WARRANTIES OR CONDITIONS OF ANY KIND, either express or implied.
+// See the License for the specific language governing permissions and
+// limitations under the License.
+
+//go:build verif
+
+package protosourcepath
+
+// Contracts for the gocv verifier (author r4a): the source-path automaton behind "buf:lint:ignore" comment placement (C06).
+// Comment-only. Spec predicates ra_anchored / ra_prefixOf: /verif/specs/R4a.spec.
+//
+// currentPath / childAssociatedPath: the prefix of the path up to and including element i (plus one child tag).
+//@ func currentPath(sourcePath, i) (r)
+//@   property C06
+//@   requires 0 <= i && i < len(sourcePath)
+//@   ensures len(r) == i + 1 && (forall t int :: 0 <= t && t <= i ==> r[t] == sourcePath[t])
+//
+//@ func childAssociatedPath(sourcePath, i, tag) (r)
+//@   property C06
+//@   requires 0 <= i && i < len(sourcePath)
+//@   ensures len(r) == i + 2 && (forall t int :: 0 <= t && t <= i ==> r[t] == sourcePath[t]) && r[i + 1] == tag
+//
+//@ func newInvalidSourcePathError(sourcePath, s) (r)
+//@   property C06
+//@   ensures r != nil
+//
+// Every state function, looking at element `index` of the path: the successor is again a state of this automaton (or nil =
+// terminal); an error has no successor; every associated path it reports is anchored at that element (ra_anchored): with
+// child paths excluded (the mode used for comment ignores) it is a PREFIX of the source path, i.e. the path of the element
+// itself or of one of its enclosing declarations.
+//@ func start(token, fullSourcePath, index, _3) (next, paths, err)
+//@   property C06
+//@   reveal ra_anchored
+//@   requires 0 <= index && index < len(fullSourcePath)
+//@   ensures successor-is-a-state: (next == nil || next == start || next == dependencies || next == options || next == reservedRanges || next == reservedRange || next == reservedNames || next == messages || next == message || next == oneOfs || next == oneOf || next == extensionRanges || next == extensionRange || next == fields || next == field || next == extensions || next == enums || next == enum || next == enumValues || next == enumValue || next == services || next == service || next == methods || next == method)
+//@   ensures error-terminates: err != nil ==> next == nil && len(paths) == 0
+//@   ensures paths-anchored: forall a int :: 0 <= a && a < len(paths) ==> ra_anchored(paths[a], fullSourcePath, index, true)
+//
+//@ func dependencies(token, sourcePath, index, _3) (next, paths, err)
+//@   property C06
+//@   reveal ra_anchored
+//@   requires 0 <= index && index < len(sourcePath)
+//@   ensures successor-is-a-state: (next == nil || next == start || next == dependencies || next == options || next == reservedRanges || next == reservedRange || next == reservedNames || next == messages || next == message || next == oneOfs || next == oneOf || next == extensionRanges || next == extensionRange || next == fields || next == field || next == extensions || next == enums || next == enum || next == enumValues || next == enumValue || next == services || next == service || next == methods || next == method)
+//@   ensures error-terminates: err != nil ==> next == nil && len(paths) == 0
+//@   ensures paths-anchored: forall a int :: 0 <= a && a < len(paths) ==> ra_anchored(paths[a], sourcePath, index, true)
+//
+//@ func options(token, fullSourcePath, index, _3) (next, paths, err)
+//@   property C06
+//@   reveal ra_anchored
+//@   requires 0 <= index && index < len(fullSourcePath)
+//@   ensures successor-is-a-state: (next == nil || next == start || next == dependencies || next == options || next == reservedRanges || next == reservedRange || next == reservedNames || next == messages || next == message || next == oneOfs || next == oneOf || next == extensionRanges || next == extensionRange || next == fields || next == field || next == extensions || next == enums || next == enum || next == enumValues || next == enumValue || next == services || next == service || next == methods || next == method)
+//@   ensures error-terminates: err != nil ==> next == nil && len(paths) == 0
+//@   ensures paths-anchored: forall a int :: 0 <= a && a < len(paths) ==> ra_anchored(paths[a], fullSourcePath, index, true)
+//
+//@ func reservedRanges(_0, fullSourcePath, index, excludeChildAssociatedPaths) (next, paths, err)
+//@   property C06
+//@   reveal ra_anchored
+//@   requires 0 <= index && index < len(fullSourcePath)
+//@   ensures successor-is-a-state: (next == nil || next == start || next == dependencies || next == options || next == reservedRanges || next == reservedRange || next == reservedNames || next == messages || next == message || next == oneOfs || next == oneOf || next == extensionRanges || next == extensionRange || next == fields || next == field || next == extensions || next == enums || next == enum || next == enumValues || next == enumValue || next == services || next == service || next == methods || next == method)
+//@   ensures error-terminates: err != nil ==> next == nil && len(paths) == 0
+//@   ensures paths-anchored: forall a int :: 0 <= a && a < len(paths) ==> ra_anchored(paths[a], fullSourcePath, index, excludeChildAssociatedPaths)
+//
+//@ func reservedRange(token, fullSourcePath, _2, _3) (next, paths, err)
+//@   property C06
+//@   reveal ra_anchored
+//@   ensures successor-is-a-state: (next == nil || next == start || next == dependencies || next == options || next == reservedRanges || next == reservedRange || next == reservedNames || next == messages || next == message || next == oneOfs || next == oneOf || next == extensionRanges || next == extensionRange || next == fields || next == field || next == extensions || next == enums || next == enum || next == enumValues || next == enumValue || next == services || next == service || next == methods || next == method)
+//@   ensures error-terminates: err != nil ==> next == nil && len(paths) == 0
+// (this state does not look at the index: it reports at most the whole path)
+//@   ensures paths-anchored: forall a int :: 0 <= a && a < len(paths) ==> ra_anchored(paths[a], fullSourcePath, 0, true)
+//
+//@ func reservedNames(_0, fullSourcePath, index, _3) (next, paths, err)
+//@   property C06
+//@   reveal ra_anchored
+//@   requires 0 <= index && index < len(fullSourcePath)
+//@   ensures successor-is-a-state: (next == nil || next == start || next == dependencies || next == options || next == reservedRanges || next == reservedRange || next == reservedNames || next == messages || next == message || next == oneOfs || next == oneOf || next == extensionRanges || next == extensionRange || next == fields || next == field || next == extensions || next == enums || next == enum || next == enumValues || next == enumValue || next == services || next == service || next == methods || next == method)
+//@   ensures error-terminates: err != nil ==> next == nil && len(paths) == 0
+//@   ensures paths-anchored: forall a int :: 0 <= a && a < len(paths) ==> ra_anchored(paths[a], fullSourcePath, index, true)
+//
+//@ func messages(_0, fullSourcePath, index, excludeChildAssociatedPaths) (next, paths, err)
+//@   property C06
+//@   reveal ra_anchored
+//@   requires 0 <= index && index < len(fullSourcePath)
+//@   ensures successor-is-a-state: (next == nil || next == start || next == dependencies || next == options || next == reservedRanges || next == reservedRange || next == reservedNames || next == messages || next == message || next == oneOfs || next == oneOf || next == extensionRanges || next == extensionRange || next == fields || next == field || next == extensions || next == enums || next == enum || next == enumValues || next == enumValue || next == services || next == service || next == methods || next == method)
+//@   ensures error-terminates: err != nil ==> next == nil && len(paths) == 0
+//@   ensures paths-anchored: forall a int :: 0 <= a && a < len(paths) ==> ra_anchored(paths[a], fullSourcePath, index, excludeChildAssociatedPaths)
+//
+//@ func message(token, fullSourcePath, index, _3) (next, paths, err)
+//@   property C06
+//@   reveal ra_anchored
+//@   requires 0 <= index && index < len(fullSourcePath)
+//@   ensures successor-is-a-state: (next == nil || next == start || next == dependencies || next == options || next == reservedRanges || next == reservedRange || next == reservedNames || next == messages || next == message || next == oneOfs || next == oneOf || next == extensionRanges || next == extensionRange || next == fields || next == field || next == extensions || next == enums || next == enum || next == enumValues || next == enumValue || next == services || next == service || next == methods || next == method)
+//@   ensures error-terminates: err != nil ==> next == nil && len(paths) == 0
+//@   ensures paths-anchored: forall a int :: 0 <= a && a < len(paths) ==> ra_anchored(paths[a], fullSourcePath, index, true)
+//
+//@ func oneOfs(_0, fullSourcePath, index, excludeChildAssociatedPaths) (next, paths, err)
+//@   property C06
+//@   reveal ra_anchored
+//@   requires 0 <= index && index < len(fullSourcePath)
+//@   ensures successor-is-a-state: (next == nil || next == start || next == dependencies || next == options || next == reservedRanges || next == reservedRange || next == reservedNames || next == messages || next == message || next == oneOfs || next == oneOf || next == extensionRanges || next == extensionRange || next == fields || next == field || next == extensions || next == enums || next == enum || next == enumValues || next == enumValue || next == services || next == service || next == methods || next == method)
+//@   ensures error-terminates: err != nil ==> next == nil && len(paths) == 0
+//@   ensures paths-anchored: forall a int :: 0 <= a && a < len(paths) ==> ra_anchored(paths[a], fullSourcePath, index, excludeChildAssociatedPaths)
+//
+//@ func oneOf(token, fullSourcePath, _2, _3) (next, paths, err)
+//@   property C06
+//@   reveal ra_anchored
+//@   ensures successor-is-a-state: (next == nil || next == start || next == dependencies || next == options || next == reservedRanges || next == reservedRange || next == reservedNames || next == messages || next == message || next == oneOfs || next == oneOf || next == extensionRanges || next == extensionRange || next == fields || next == field || next == extensions || next == enums || next == enum || next == enumValues || next == enumValue || next == services || next == service || next == methods || next == method)
+//@   ensures error-terminates: err != nil ==> next == nil && len(paths) == 0
+// (this state does not look at the index: it reports at most the whole path)
+//@   ensures paths-anchored: forall a int :: 0 <= a && a < len(paths) ==> ra_anchored(paths[a], fullSourcePath, 0, true)
+//
+//@ func extensionRanges(_0, fullSourcePath, index, excludeChildAssociatedPaths) (next, paths, err)
+//@   property C06
+//@   reveal ra_anchored
+//@   requires 0 <= index && index < len(fullSourcePath)
+//@   ensures successor-is-a-state: (next == nil || next == start || next == dependencies || next == options || next == reservedRanges || next == reservedRange || next == reservedNames || next == messages || next == message || next == oneOfs || next == oneOf || next == extensionRanges || next == extensionRange || next == fields || next == field || next == extensions || next == enums || next == enum || next == enumValues || next == enumValue || next == services || next == service || next == methods || next == method)
+//@   ensures error-terminates: err != nil ==> next == nil && len(paths) == 0
+//@   ensures paths-anchored: forall a int :: 0 <= a && a < len(paths) ==> ra_anchored(paths[a], fullSourcePath, index, excludeChildAssociatedPaths)
+//
+//@ func extensionRange(token, fullSourcePath, _2, _3) (next, paths, err)
+//@   property C06
+//@   reveal ra_anchored
+//@   ensures successor-is-a-state: (next == nil || next == start || next == dependencies || next == options || next == reservedRanges || next == reservedRange || next == reservedNames || next == messages || next == message || next == oneOfs || next == oneOf || next == extensionRanges || next == extensionRange || next == fields || next == field || next == extensions || next == enums || next == enum || next == enumValues || next == enumValue || next == services || next == service || next == methods || next == method)
+//@   ensures error-terminates: err != nil ==> next == nil && len(paths) == 0
+// (this state does not look at the index: it reports at most the whole path)
+//@   ensures paths-anchored: forall a int :: 0 <= a && a < len(paths) ==> ra_anchored(paths[a], fullSourcePath, 0, true)
+//
+//@ func fields(_0, fullSourcePath, index, excludeChildAssociatedPaths) (next, paths, err)
+//@   property C06
+//@   reveal ra_anchored
+//@   requires 0 <= index && index < len(fullSourcePath)
+//@   ensures successor-is-a-state: (next == nil || next == start || next == dependencies || next == options || next == reservedRanges || next == reservedRange || next == reservedNames || next == messages || next == message || next == oneOfs || next == oneOf || next == extensionRanges || next == extensionRange || next == fields || next == field || next == extensions || next == enums || next == enum || next == enumValues || next == enumValue || next == services || next == service || next == methods || next == method)
+//@   ensures error-terminates: err != nil ==> next == nil && len(paths) == 0
+//@   ensures paths-anchored: forall a int :: 0 <= a && a < len(paths) ==> ra_anchored(paths[a], fullSourcePath, index, excludeChildAssociatedPaths)
+//
+//@ func field(token, fullSourcePath, index, _3) (next, paths, err)
+//@   property C06
+//@   reveal ra_anchored
+//@   requires 0 <= index && index < len(fullSourcePath)
+//@   ensures successor-is-a-state: (next == nil || next == start || next == dependencies || next == options || next == reservedRanges || next == reservedRange || next == reservedNames || next == messages || next == message || next == oneOfs || next == oneOf || next == extensionRanges || next == extensionRange || next == fields || next == field || next == extensions || next == enums || next == enum || next == enumValues || next == enumValue || next == services || next == service || next == methods || next == method)
+//@   ensures error-terminates: err != nil ==> next == nil && len(paths) == 0
+//@   ensures paths-anchored: forall a int :: 0 <= a && a < len(paths) ==> ra_anchored(paths[a], fullSourcePath, index, true)
+//
+//@ func extensions(token, fullSourcePath, index, excludeChildAssociatedPaths) (next, paths, err)
+//@   property C06
+//@   reveal ra_anchored
+//@   requires 0 <= index && index < len(fullSourcePath)
+//@   ensures successor-is-a-state: (next == nil || next == start || next == dependencies || next == options || next == reservedRanges || next == reservedRange || next == reservedNames || next == messages || next == message || next == oneOfs || next == oneOf || next == extensionRanges || next == extensionRange || next == fields || next == field || next == extensions || next == enums || next == enum || next == enumValues || next == enumValue || next == services || next == service || next == methods || next == method)
+//@   ensures error-terminates: err != nil ==> next == nil && len(paths) == 0
+//@   ensures paths-anchored: forall a int :: 0 <= a && a < len(paths) ==> ra_anchored(paths[a], fullSourcePath, index, excludeChildAssociatedPaths)
+//
+//@ func enums(_0, fullSourcePath, index, excludeChildAssociatedPaths) (next, paths, err)
+//@   property C06
+//@   reveal ra_anchored
+//@   requires 0 <= index && index < len(fullSourcePath)
+//@   ensures successor-is-a-state: (next == nil || next == start || next == dependencies || next == options || next == reservedRanges || next == reservedRange || next == reservedNames || next == messages || next == message || next == oneOfs || next == oneOf || next == extensionRanges || next == extensionRange || next == fields || next == field || next == extensions || next == enums || next == enum || next == enumValues || next == enumValue || next == services || next == service || next == methods || next == method)
+//@   ensures error-terminates: err != nil ==> next == nil && len(paths) == 0
+//@   ensures paths-anchored: forall a int :: 0 <= a && a < len(paths) ==> ra_anchored(paths[a], fullSourcePath, index, excludeChildAssociatedPaths)
+//
+//@ func enum(token, fullSourcePath, index, _3) (next, paths, err)
+//@   property C06
+//@   reveal ra_anchored
+//@   requires 0 <= index && index < len(fullSourcePath)
+//@   ensures successor-is-a-state: (next == nil || next == start || next == dependencies || next == options || next == reservedRanges || next == reservedRange || next == reservedNames || next == messages || next == message || next == oneOfs || next == oneOf || next == extensionRanges || next == extensionRange || next == fields || next == field || next == extensions || next == enums || next == enum || next == enumValues || next == enumValue || next == services || next == service || next == methods || next == method)
+//@   ensures error-terminates: err != nil ==> next == nil && len(paths) == 0
+//@   ensures paths-anchored: forall a int :: 0 <= a && a < len(paths) ==> ra_anchored(paths[a], fullSourcePath, index, true)
+//
+//@ func enumValues(_0, fullSourcePath, index, excludeChildAssociatedPaths) (next, paths, err)
+//@   property C06
+//@   reveal ra_anchored
+//@   requires 0 <= index && index < len(fullSourcePath)
+//@   ensures successor-is-a-state: (next == nil || next == start || next == dependencies || next == options || next == reservedRanges || next == reservedRange || next == reservedNames || next == messages || next == message || next == oneOfs || next == oneOf || next == extensionRanges || next == extensionRange || next == fields || next == field || next == extensions || next == enums || next == enum || next == enumValues || next == enumValue || next == services || next == service || next == methods || next == method)
+//@   ensures error-terminates: err != nil ==> next == nil && len(paths) == 0
+//@   ensures paths-anchored: forall a int :: 0 <= a && a < len(paths) ==> ra_anchored(paths[a], fullSourcePath, index, excludeChildAssociatedPaths)
+//
+//@ func enumValue(token, sourcePath, i, _3) (next, paths, err)
+//@   property C06
+//@   reveal ra_anchored
+//@   requires 0 <= i && i < len(sourcePath)
+//@   ensures successor-is-a-state: (next == nil || next == start || next == dependencies || next == options || next == reservedRanges || next == reservedRange || next == reservedNames || next == messages || next == message || next == oneOfs || next == oneOf || next == extensionRanges || next == extensionRange || next == fields || next == field || next == extensions || next == enums || next == enum || next == enumValues || next == enumValue || next == services || next == service || next == methods || next == method)
+//@   ensures error-terminates: err != nil ==> next == nil && len(paths) == 0
+//@   ensures paths-anchored: forall a int :: 0 <= a && a < len(paths) ==> ra_anchored(paths[a], sourcePath, i, true)
+//
+//@ func services(_0, fullSourcePath, index, excludeChildAssociatedPaths) (next, paths, err)
+//@   property C06
+//@   reveal ra_anchored
+//@   requires 0 <= index && index < len(fullSourcePath)
+//@   ensures successor-is-a-state: (next == nil || next == start || next == dependencies || next == options || next == reservedRanges || next == reservedRange || next == reservedNames || next == messages || next == message || next == oneOfs || next == oneOf || next == extensionRanges || next == extensionRange || next == fields || next == field || next == extensions || next == enums || next == enum || next == enumValues || next == enumValue || next == services || next == service || next == methods || next == method)
+//@   ensures error-terminates: err != nil ==> next == nil && len(paths) == 0
+//@   ensures paths-anchored: forall a int :: 0 <= a && a < len(paths) ==> ra_anchored(paths[a], fullSourcePath, index, excludeChildAssociatedPaths)
+//
+//@ func service(token, fullSourcePath, index, _3) (next, paths, err)
+//@   property C06
+//@   reveal ra_anchored
+//@   requires 0 <= index && index < len(fullSourcePath)
+//@   ensures successor-is-a-state: (next == nil || next == start || next == dependencies || next == options || next == reservedRanges || next == reservedRange || next == reservedNames || next == messages || next == message || next == oneOfs || next == oneOf || next == extensionRanges || next == extensionRange || next == fields || next == field || next == extensions || next == enums || next == enum || next == enumValues || next == enumValue || next == services || next == service || next == methods || next == method)
+//@   ensures error-terminates: err != nil ==> next == nil && len(paths) == 0
+//@   ensures paths-anchored: forall a int :: 0 <= a && a < len(paths) ==> ra_anchored(paths[a], fullSourcePath, index, true)
+//
+//@ func methods(_0, fullSourcePath, index, excludeChildAssociatedPaths) (next, paths, err)
+//@   property C06
+//@   reveal ra_anchored
+//@   requires 0 <= index && index < len(fullSourcePath)
+//@   ensures successor-is-a-state: (next == nil || next == start || next == dependencies || next == options || next == reservedRanges || next == reservedRange || next == reservedNames || next == messages || next == message || next == oneOfs || next == oneOf || next == extensionRanges || next == extensionRange || next == fields || next == field || next == extensions || next == enums || next == enum || next == enumValues || next == enumValue || next == services || next == service || next == methods || next == method)
+//@   ensures error-terminates: err != nil ==> next == nil && len(paths) == 0
+//@   ensures paths-anchored: forall a int :: 0 <= a && a < len(paths) ==> ra_anchored(paths[a], fullSourcePath, index, excludeChildAssociatedPaths)
+//
+//@ func method(token, fullSourcePath, _2, _3) (next, paths, err)
+//@   property C06
+//@   reveal ra_anchored
+//@   ensures successor-is-a-state: (next == nil || next == start || next == dependencies || next == options || next == reservedRanges || next == reservedRange || next == reservedNames || next == messages || next == message || next == oneOfs || next == oneOf || next == extensionRanges || next == extensionRange || next == fields || next == field || next == extensions || next == enums || next == enum || next == enumValues || next == enumValue || next == services || next == service || next == methods || next == method)
+//@   ensures error-terminates: err != nil ==> next == nil && len(paths) == 0
+// (this state does not look at the index: it reports at most the whole path)
+//@   ensures paths-anchored: forall a int :: 0 <= a && a < len(paths) ==> ra_anchored(paths[a], fullSourcePath, 0, true)
+//
+// The automaton run: every associated path is rooted in the source path (ra_rooted, specs/R4a.spec): it follows the source path
+// except possibly in its last element (a child tag), and is at most one element longer.
+//@ func getAssociatedSourcePaths(sourcePath, excludeChildAssociatedPaths) (r, err)
+//@   property C06
+//@   use ra_anchored-rooted, ra_rooted-weaken, ra_rooted-prefix
+//@   dispatch currentState over start, dependencies, options, reservedRanges, reservedRange, reservedNames, messages, message, oneOfs, oneOf, extensionRanges, extensionRange, fields, field, extensions, enums, enum, enumValues, enumValue, services, service, methods, method
+//@   ensures paths-rooted: err == nil ==> (forall a int :: 0 <= a && a < len(r) ==> ra_rooted(r[a], sourcePath, excludeChildAssociatedPaths))
+// child paths excluded (the mode of GetAssociatedSourcePaths, used for comment ignores): a "buf:lint:ignore" comment is looked for
+// ONLY on the element the annotation points at and on its enclosing declarations - every associated path is a non-empty
+// prefix of the annotation's source path
+//@   ensures only-enclosing-elements: err == nil && excludeChildAssociatedPaths ==> (forall a int :: 0 <= a && a < len(r) ==> ra_prefixOf(r[a], sourcePath))
+//@   ensures empty-path-nothing: len(sourcePath) == 0 ==> err == nil && len(r) == 0
+//@   loop 0 invariant (currentState == nil || currentState == start || currentState == dependencies || currentState == options || currentState == reservedRanges || currentState == reservedRange || currentState == reservedNames || currentState == messages || currentState == message || currentState == oneOfs || currentState == oneOf || currentState == extensionRanges || currentState == extensionRange || currentState == fields || currentState == field || currentState == extensions || currentState == enums || currentState == enum || currentState == enumValues || currentState == enumValue || currentState == services || currentState == service || currentState == methods || currentState == method)
+//@   assert before "if associatedSourcePaths != nil" step-paths-rooted: forall a int :: 0 <= a && a < len(associatedSourcePaths) ==> ra_rooted(associatedSourcePaths[a], sourcePath, excludeChildAssociatedPaths)
+//@   loop 0 invariant $i == 0 ==> len(result) == 0
+//@   loop 0 invariant forall a int :: 0 <= a && a < len(result) ==> ra_rooted(result[a], sourcePath, excludeChildAssociatedPaths)
+//
+// GetAssociatedSourcePaths (the entry point used by ignoreFileLocation, child paths excluded): a "buf:lint:ignore" comment is
+// looked for ONLY on the element the annotation points at and on its enclosing declarations - every associated path is a
+// non-empty prefix of the annotation's source path. (ghost.commentsConsulted: the lookup was performed - set by ghost code
+// here, it was set by the trusted contract in /verif/specs/repo_trusted.spec before.)
+//@ func GetAssociatedSourcePaths(sourcePath) (r, err)
+//@   property C06
+//@   modifies ghost.commentsConsulted
+//@   ghost before "return getAssociatedSourcePaths(sourcePath, true)" commentsConsulted := true
+//@   ensures ghost.commentsConsulted
+//@   ensures only-enclosing-elements: err == nil ==> (forall a int :: 0 <= a && a < len(r) ==> ra_prefixOf(r[a], sourcePath))
